@@ -765,6 +765,15 @@ theorem ker_pow2_check_sound (mat : Mat) (e : Nat) (v : List Int) (h : kerPow2Ch
 theorem dotInt_cons (a b : Int) (r w : List Int) : dotInt (a :: r) (b :: w) = a * b + dotInt r w := rfl
 example : kerPow2Check [[1, 2, 0, 0], [0, 0, 4, 4], [2, 4, 0, 0], [0, 0, 0, 8]] 3 [2, 7, 1, 1] = true := by decide
 
+/-- soundness of the matrix-identity checker through which every output of the real `ibz_mat_howell`
+    ([0|mat]·trans ≡ howell) and `ibz_mat_right_ker_mod` (mat·ker ≡ 0) is passed on each run (driver op `chkmul`) -/
+theorem mat_mul_check_sound (A B C : Mat) (cols : Nat) (N : Int) (h : matMulCheck A B C cols N = true) :
+    A.length = C.length ∧ ∀ i < A.length, ∀ j < cols, (dotInt (A.getD i []) (colOf B j) - get C i j) % N = 0 := by
+  simp only [matMulCheck, Bool.and_eq_true, List.all_eq_true, List.mem_range, beq_iff_eq] at h
+  exact ⟨h.1, fun i hi j hj => h.2 i hi j hj⟩
+example : matMulCheck [[1, 2], [3, 4]] [[5, 6], [7, 8]] [[19, 22], [43, 50]] 2 1000 = true ∧
+    matMulCheck [[1, 2], [3, 4]] [[5, 6], [7, 8]] [[19, 22], [43, 51]] 2 1000 = false := by decide
+
 /-! ## 10. Building blocks of the Howell form (matkermod.c) that ARE proved
 
 The Howell-form algorithm as a whole has no theorem (see the header of §8 and notes/C17.md); two of its ingredients do: -/
